@@ -80,20 +80,32 @@ func (b *Uint32SizedArray) Unmarshal(r io.Reader) error {
 	return readSizedArray(r, &size, &b.Data)
 }
 
-func makeSized[T any](size any) ([]T, error) {
+// readExactly reads exactly size bytes from r. The buffer grows with the data that is actually
+// present, so a declared size larger than the input costs no memory and is an error, as is a
+// short read (reported as io.ErrUnexpectedEOF).
+func readExactly(r io.Reader, size uint32) ([]byte, error) {
+	if size == 0 {
+		return nil, nil
+	}
+	result, err := io.ReadAll(io.LimitReader(r, int64(size)))
+	if err != nil {
+		return result, err
+	}
+	if uint32(len(result)) != size {
+		// The partial data is returned for the caller's error message.
+		return result, io.ErrUnexpectedEOF
+	}
+	return result, nil
+}
+
+func sizeOf(size any) (uint32, error) {
 	switch s := size.(type) {
 	case *byte:
-		if *s == 0 {
-			return nil, nil
-		}
-		return make([]T, *s), nil
+		return uint32(*s), nil
 	case *uint32:
-		if *s == 0 {
-			return nil, nil
-		}
-		return make([]T, *s), nil
+		return *s, nil
 	default:
-		return nil, fmt.Errorf("unsupported array size type %T", size)
+		return 0, fmt.Errorf("unsupported array size type %T", size)
 	}
 }
 
@@ -118,12 +130,15 @@ func (d *Uint32SizedArrayT[T]) Unmarshal(r io.Reader) error {
 		d.Array = nil
 		return nil
 	}
-	d.Array = make([]T, size)
-	for i := range d.Array {
-		d.Array[i] = d.Array[i].Create().(T)
-		if err := d.Array[i].Unmarshal(r); err != nil {
+	// Grow with the elements that are actually present instead of trusting the declared count.
+	d.Array = nil
+	var zero T
+	for i := uint32(0); i < size; i++ {
+		elt := zero.Create().(T)
+		if err := elt.Unmarshal(r); err != nil {
 			return fmt.Errorf("failed to unmarshal %T element %d: %v", []T{}, i, err)
 		}
+		d.Array = append(d.Array, elt)
 	}
 	return nil
 }
@@ -132,12 +147,13 @@ func readSizedArray(r io.Reader, size any, data *[]byte) error {
 	if err := binary.Read(r, binary.LittleEndian, size); err != nil {
 		return fmt.Errorf("failed to read array size as %T: %w", size, err)
 	}
-	result, err := makeSized[byte](size)
+	n, err := sizeOf(size)
 	if err != nil {
 		return err
 	}
-	if _, err := r.Read(result); err != nil {
-		return err
+	result, err := readExactly(r, n)
+	if err != nil {
+		return fmt.Errorf("failed to read array sized %d (read %d bytes): %w", n, len(result), err)
 	}
 	*data = result
 	return nil
